@@ -42,6 +42,8 @@ func init() {
 		p.Quick = append(p.Quick, HRun{Entry: "HarnessC17Routing", Args: []int64{1}, Bound: "a 1-byte pattern under each of 6 filter keys of 4 events: reported iff the validator belonging to the key rejects it", Require: []string{"checked", "invalid"}},
 			HRun{Entry: "HarnessC17Routing", Args: []int64{2}, Bound: "... 2-byte patterns", Require: []string{"checked", "invalid"}})
 		p.Thorough = append(p.Thorough, HRun{Entry: "HarnessC17Routing", Args: []int64{3}, Bound: "filter-key routing with 3-byte patterns", Require: []string{"checked", "invalid"}})
+		p.Quick = append(p.Quick, HRun{Entry: "HarnessC17TwoFilters", Args: []int64{2}, Bound: "the same 2-byte pattern under two filter keys of two events (path + ref in both orders, ref + ref): each occurrence judged by its own key's syntax", Require: []string{"checked"}})
+		p.Thorough = append(p.Thorough, HRun{Entry: "HarnessC17TwoFilters", Args: []int64{3}, Bound: "the same 3-byte pattern under two filter keys", Require: []string{"checked"}})
 		props["C17"] = p
 	}
 
@@ -69,6 +71,11 @@ func init() {
 		p.Thorough = append(p.Thorough, HRun{Entry: "HarnessC13Missing", Bound: "each mandatory key removed from each mapping that has it", Require: []string{"baseline", "removed"}})
 		p.Quick = append(p.Quick, HRun{Entry: "HarnessC13Siblings", Bound: "a wrong cron value next to a foreign key in a schedule item; a call job with two normal-job keys; a normal job with `with` and `secrets`: every diagnostic survives", Require: []string{"schedule", "call-job", "normal-job"}})
 		p.Thorough = append(p.Thorough, HRun{Entry: "HarnessC13Siblings", Bound: "sibling diagnostics survive", Require: []string{"schedule", "call-job", "normal-job"}})
+		{
+			r := HRun{Entry: "HarnessC09OddKey", Bound: "an entry with an empty or non-scalar key placed first in the jobs / with / env / matrix mapping: the entries after it keep their diagnostics", Require: []string{"compared"}}
+			p.Quick = append(p.Quick, r)
+			p.Thorough = append(p.Thorough, r)
+		}
 		props["C13"] = p
 	}
 	// ---- C03 ----
@@ -94,6 +101,11 @@ func init() {
 		p.Thorough = append(p.Thorough, HRun{Entry: "HarnessC03Tagged", Bound: "explicitly tagged placeholders at every scalar position", Require: []string{"site"}})
 		p.Quick = append(p.Quick, HRun{Entry: "HarnessC03ActionInputs", Bound: "every with: input (script, result-encoding, ref, args, entrypoint, another) of an ordinary action, actions/github-script, a Docker action and an unknown action", Require: []string{"site"}})
 		p.Thorough = append(p.Thorough, HRun{Entry: "HarnessC03ActionInputs", Bound: "with: inputs of four kinds of action", Require: []string{"site"}})
+		{
+			r := HRun{Entry: "HarnessC03Testdata", Args: []int64{0, 1}, Bound: "every scalar value of every clean workflow under testdata/ok, testdata/err, testdata/examples of the current tree (compiled in at run time) replaced in turn by a malformed placeholder", Require: []string{"site"}}
+			p.Quick = append(p.Quick, r)
+			p.Thorough = append(p.Thorough, r)
+		}
 		props["C03"] = p
 	}
 
@@ -111,6 +123,9 @@ func init() {
 			{Entry: "HarnessC12Site", Args: []int64{1}, Bound: "every scalar position x 5 special functions x 4 embeddings x all letter-case spellings", Require: []string{"function-allowed", "function-not-allowed"}},
 		}
 		p.Thorough = p.Quick
+		for _, f := range []int64{0, 1} {
+			p.Thorough = append(p.Thorough, HRun{Entry: "HarnessC12Testdata", Args: []int64{f}, Bound: "every scalar value of every clean workflow of the repository's testdata x every context (f=0) / special function (f=1): verdict against the table row of that position", Require: []string{"not-clean"}})
+		}
 		props["C12"] = p
 	}
 
@@ -160,6 +175,16 @@ func init() {
 		p.Quick = append(p.Quick, HRun{Entry: "HarnessC01NoProject", Bound: "LintFiles on two files outside any repository, one with a local reusable workflow call in 4 spellings", Require: []string{"returned"}})
 		p.Thorough = append(p.Thorough, HRun{Entry: "HarnessC01NoProject", Bound: "files outside any repository", Require: []string{"returned"}})
 		p.Quick = append(p.Quick, HRun{Entry: "HarnessC16SnippetWide", Args: []int64{4}, Bound: "snippet rendering of lines of 4 units from {a, space, tab, U+200B, U+3042, U+00E9, U+0301} x 64-bit symbolic column: no panic", Require: []string{"rendered"}})
+		for _, e := range []string{"HarnessC14Routes", "HarnessC14ActionFile"} {
+			r := HRun{Entry: e, Bound: "reusable-workflow / action metadata files (declaration families of C14, plus inputs declared as nothing, `~`, an alias of an anchored null or mapping) decoded by the repository's UnmarshalYAML methods and used by a caller: no panic"}
+			p.Quick = append(p.Quick, r)
+			p.Thorough = append(p.Thorough, r)
+		}
+		{
+			r := HRun{Entry: "HarnessC01Config", Bound: "actionlint.yaml with 10 unusual shapes (nothing, ~, alias of an anchored null, {}, [], scalar, empty / null ignore list) for a paths entry, self-hosted-runner and config-variables: decoded by ParseConfig and, when accepted, used by filterErrors and all rules", Require: []string{"parsed", "accepted"}}
+			p.Quick = append(p.Quick, r)
+			p.Thorough = append(p.Thorough, r)
+		}
 		props["C01"] = p
 	}
 	// ---- C04 ----
@@ -195,6 +220,16 @@ func init() {
 			p.Quick = append(p.Quick, HRun{Entry: "HarnessC04ParseIn", Args: []int64{int64(c), 3}, Bound: "3 symbolic tokens inside one of 8 concrete contexts (index operand, call argument, parenthesised receiver, operand of == / ! / nested index): sentences of 6-9 tokens"})
 			p.Thorough = append(p.Thorough, HRun{Entry: "HarnessC04ParseIn", Args: []int64{int64(c), 4}, Bound: "4 symbolic tokens inside one of 8 concrete contexts"})
 		}
+		p.Quick = append(p.Quick,
+			HRun{Entry: "HarnessC04Structure", Args: []int64{3, 2, 2}, Bound: "every reference tree of depth <= 3 over !, 2 comparisons, &&, || and 2 operands, printed with minimal parentheses, with / without blanks: the parser's tree is the reference tree", Require: []string{"parsed"}},
+			HRun{Entry: "HarnessC04Structure", Args: []int64{2, 9, 6}, Bound: "depth <= 2 over all 6 comparisons and 9 kinds of operand (variables, property / index access, calls, literals incl. strings with '' escapes)", Require: []string{"parsed"}},
+			HRun{Entry: "HarnessC04Reuse", Bound: "one ExprParser used for a rejected text (9 kinds) or a sentence and then for one of 4 sentences", Require: []string{"parsed"}},
+		)
+		p.Thorough = append(p.Thorough,
+			HRun{Entry: "HarnessC04Structure", Args: []int64{3, 3, 3}, Bound: "reference trees of depth <= 3 over 3 comparisons and 3 operands (26118 trees x 2 spacings)", Require: []string{"parsed"}},
+			HRun{Entry: "HarnessC04Structure", Args: []int64{2, 9, 6}, Bound: "depth <= 2, all comparisons and operand kinds", Require: []string{"parsed"}},
+			HRun{Entry: "HarnessC04Reuse", Bound: "parser reuse", Require: []string{"parsed"}},
+		)
 		props["C04"] = p
 	}
 
@@ -220,6 +255,14 @@ func init() {
 		}
 		p.Quick = append(p.Quick, HRun{Entry: "HarnessC19Parsed", Bound: "row / include / exclude keys in 3 spellings each through the workflow parser: a matching exclude is never reported", Require: []string{"linted"}})
 		p.Thorough = append(p.Thorough, HRun{Entry: "HarnessC19Parsed", Bound: "key spellings through the parser", Require: []string{"linted"}})
+		for _, e := range []struct{ n, b, r string }{
+			{"HarnessC19TwoJobs", "one rule instance, job A (4 variants: expression row / expression include entry next to an exclude list, duplicates, plain) visited before job B (4 variants): B's diagnostics equal those it gets alone", "compared"},
+			{"HarnessC19Dynamic", "include with one entry given by an expression (first / last / alone) x 3 exclude lists x duplicate or not in a static row: no exclude report, the duplicate reported once", "checked"},
+		} {
+			r := HRun{Entry: e.n, Bound: e.b, Require: []string{e.r}}
+			p.Quick = append(p.Quick, r)
+			p.Thorough = append(p.Thorough, r)
+		}
 		props["C19"] = p
 	}
 
@@ -287,6 +330,12 @@ func init() {
 			HRun{Entry: "HarnessC16Glob", Args: []int64{4, 0}, Bound: "filter-pattern validator messages for every 4-byte pattern", Require: []string{"diagnostic"}},
 			HRun{Entry: "HarnessC16Glob", Args: []int64{6, 1}, Bound: "... every 6-byte pattern over the 13-character alphabet", Require: []string{"diagnostic"}},
 		)
+		for L := int64(1); L <= 2; L++ {
+			p.Quick = append(p.Quick, HRun{Entry: "HarnessC16MatcherLines", Args: []int64{L}, Bound: "two diagnostics printed without source (-oneline), colours off / on (fatih/color model: ESC[<n>m text ESC[0m), echoed key of L printable bytes: every header line parses back through the shipped pattern", Require: []string{"diagnostic", "linted"}})
+		}
+		p.Thorough = append(p.Thorough, HRun{Entry: "HarnessC16MatcherLines", Args: []int64{3}, Bound: "two header lines, colours off / on, echoed key of 3 printable bytes", Require: []string{"diagnostic", "linted"}})
+		p.Quick = append(p.Quick, HRun{Entry: "HarnessC16MatrixEcho", Args: []int64{2}, Bound: "matrix diagnostics that echo a mapping value whose key or value is 2 arbitrary bytes (duplicate row value, exclude entry that matches nothing)", Require: []string{"diagnostic", "linted"}})
+		p.Thorough = append(p.Thorough, HRun{Entry: "HarnessC16MatrixEcho", Args: []int64{3}, Bound: "echoed mapping key / value of 3 arbitrary bytes", Require: []string{"diagnostic", "linted"}})
 		props["C16"] = p
 	}
 
@@ -319,6 +368,11 @@ func init() {
 		)
 		p.Quick = append(p.Quick, HRun{Entry: "HarnessC10FindProject", Bound: "81 layouts of .git / .github/workflows (absent, directory, file) in two nested directories: the file belongs to the nearest repository", Require: []string{"found"}})
 		p.Thorough = append(p.Thorough, HRun{Entry: "HarnessC10FindProject", Bound: "81 repository layouts", Require: []string{"found"}})
+		{
+			r := HRun{Entry: "HarnessC14Routes", Bound: "a callee's interface decoded from its file or written from its syntax tree (which one is used depends on the order of the files): same interface, and a caller gets the same diagnostics with either", Require: []string{"compared"}}
+			p.Quick = append(p.Quick, r)
+			p.Thorough = append(p.Thorough, r)
+		}
 		props["C10"] = p
 	}
 
@@ -343,6 +397,11 @@ func init() {
 			HRun{Entry: "HarnessC15Filter", Args: []int64{6, 2, 2}, Bound: "6 diagnostics x 2 CLI patterns x 2 path configs", Require: []string{"kept", "dropped"}},
 			HRun{Entry: "HarnessC15Filter", Args: []int64{5, 3, 3}, Bound: "5 diagnostics x 3 CLI patterns x 3 path configs", Require: []string{"kept", "dropped"}},
 		)
+		{
+			r := HRun{Entry: "HarnessC10FindProject", Bound: "81 layouts of .git / .github/workflows (absent, directory, file): the repository whose configuration applies to a file is the nearest one (.git may be a file)", Require: []string{"found"}}
+			p.Quick = append(p.Quick, r)
+			p.Thorough = append(p.Thorough, r)
+		}
 		props["C15"] = p
 	}
 
@@ -359,6 +418,12 @@ func init() {
 			{Entry: "HarnessC08Diagnosed", Bound: "a workflow with name-dependent diagnostics (typed inputs / secret of a local reusable workflow call, needs outputs, action inputs): 6 names (call-site keys, a job id that needs itself) with symbolic letter case keep every diagnostic in place", Require: []string{"variant"}},
 		}
 		p.Thorough = p.Quick
+		p.Thorough = append(p.Thorough, HRun{Entry: "HarnessC08CasePairs", Bound: "every pair of the 50 name occurrences with independent symbolic letter cases (1225 pairs x 2^n x 2^m spellings)", Require: []string{"variant"}})
+		{
+			r := HRun{Entry: "HarnessC08Testdata", Bound: "every clean workflow of the repository's testdata with all names inside all ${{ }} placeholders upper-cased (string and number literals, true / false / null untouched): still clean", Require: []string{"variant"}}
+			p.Quick = append(p.Quick, r)
+			p.Thorough = append(p.Thorough, r)
+		}
 		props["C08"] = p
 	}
 
@@ -370,7 +435,7 @@ func init() {
 			"the pair comparisons are exhaustive enumerations of a finite family (shape-symbolic); the solver is involved only for the symbolic property letter of the frozen-scope harness",
 		}}
 		p.Quick = []HRun{
-			{Entry: "HarnessC09Frozen", Args: []int64{2}, Bound: "every chain base(12) + 2 segments(6 each) + symbolic property letter: no write to the job's scope types or built-in tables while it is checked", Require: []string{"checked"}},
+			{Entry: "HarnessC09Frozen", Args: []int64{2}, Bound: "every chain base(13) + 2 segments(6 each) + symbolic property letter: no write to the job's scope types or built-in tables while it is checked", Require: []string{"checked"}},
 			{Entry: "HarnessC09Exprs", Args: []int64{2, 1}, Bound: "all pairs (earlier chain of depth 2, later chain of depth 1) in one job", Require: []string{"compared"}},
 			{Entry: "HarnessC09Jobs", Bound: "all ordered pairs of 13 job variants x both iteration orders of the jobs map", Require: []string{"compared"}},
 			{Entry: "HarnessC09FrozenJobs", Bound: "each of 13 job variants visited with the workflow-level scope types and built-in tables frozen; per-job scope reset", Require: []string{"visited"}},
@@ -384,6 +449,21 @@ func init() {
 		}
 		p.Quick = append(p.Quick, HRun{Entry: "HarnessC09Calls", Bound: "an invalid local reusable-workflow call (4 spellings) before / between / after two unrelated jobs that share the metadata cache", Require: []string{"compared"}})
 		p.Thorough = append(p.Thorough, HRun{Entry: "HarnessC09Calls", Bound: "invalid call next to valid calls of the same file", Require: []string{"compared"}})
+		{
+			r := HRun{Entry: "HarnessC10MatrixAlias", Bound: "matrices given by expressions whose types are shared objects (built-in contexts, the workflow's inputs): typing one job's matrix does not change what a later job sees", Require: []string{"linted"}}
+			p.Quick = append(p.Quick, r)
+			p.Thorough = append(p.Thorough, r)
+		}
+		{
+			r := HRun{Entry: "HarnessC09OddKey", Bound: "an entry with an empty or non-scalar key placed first in the jobs / with / env / matrix mapping: the entries after it keep their diagnostics", Require: []string{"compared"}}
+			p.Quick = append(p.Quick, r)
+			p.Thorough = append(p.Thorough, r)
+		}
+		{
+			r := HRun{Entry: "HarnessC19TwoJobs", Bound: "the matrix rule's state does not survive from one job to the next (4 x 4 job variants)", Require: []string{"compared"}}
+			p.Quick = append(p.Quick, r)
+			p.Thorough = append(p.Thorough, r)
+		}
 		props["C09"] = p
 	}
 
@@ -404,6 +484,22 @@ func init() {
 		p.Thorough = p.Quick
 		p.Quick = append(p.Quick, HRun{Entry: "HarnessC02Format", Bound: "3 files, custom format: the per-file goroutines run as wholes in each of the 6 completion orders; the list given to the template printer and the returned list are the same", Require: []string{"compared"}})
 		p.Thorough = append(p.Thorough, HRun{Entry: "HarnessC02Format", Bound: "6 goroutine completion orders of a 3-file run", Require: []string{"compared"}})
+		p.Thorough = append(p.Thorough, HRun{Entry: "HarnessC02Testdata", Args: []int64{0, 1, 8}, Bound: "every workflow under testdata/ok, testdata/err, testdata/examples of the current tree x every function that ranges over a map while it is linted, iterations in symbolic order (first 8 order decisions per path; maps of more than 3 entries in 3 fixed permutations)", Require: []string{"compared"}})
+		p.Quick = append(p.Quick, HRun{Entry: "HarnessC02SharedDefect", Bound: "two files of one repository using the same broken local action, both completion orders of the per-file goroutines: which file carries the single report", Require: []string{"compared"}})
+		p.Thorough = append(p.Thorough, HRun{Entry: "HarnessC02SharedDefect", Bound: "shared broken local action, both goroutine orders", Require: []string{"compared"}})
+		{
+			r := HRun{Entry: "HarnessC02Repeat", Bound: "one Linter, the same file linted three times (LintFile, LintFiles, LintFile), with diagnostics the shared caches report once per run", Require: []string{"compared"}}
+			p.Quick = append(p.Quick, r)
+			p.Thorough = append(p.Thorough, r)
+		}
+		for _, e := range []struct{ n, b string }{
+			{"HarnessC02Config", "a repository configuration with duplicate runner labels and configuration variables: every function that ranges over a map while the workflow is linted, iterations in symbolic order"},
+			{"HarnessC02ConfigError", "a configuration with three invalid glob patterns in `paths`: the fatal error under every iteration order of the map"},
+		} {
+			r := HRun{Entry: e.n, Bound: e.b, Require: []string{"compared"}}
+			p.Quick = append(p.Quick, r)
+			p.Thorough = append(p.Thorough, r)
+		}
 		props["C02"] = p
 	}
 
@@ -415,7 +511,7 @@ func init() {
 			"the list of documented untrusted inputs is a committed flat copy (harness/c11_untrusted.go)",
 		}}
 		p.Quick = []HRun{
-			{Entry: "HarnessC11Chains", Args: []int64{2}, Bound: "github + up to 2 segments (15 names as .name or ['name'], [0], .*) with symbolic letter case on every name, x 15 embeddings (5 sanitising)", Require: []string{"untrusted", "trusted-or-sanitised"}},
+			{Entry: "HarnessC11Chains", Args: []int64{2}, Bound: "github + up to 2 segments (15 names as .name or ['name'], [0], .*) with symbolic letter case on every name, x 24 embeddings (8 sanitising; function names in several spellings)", Require: []string{"untrusted", "trusted-or-sanitised"}},
 			{Entry: "HarnessC11Two", Args: []int64{2}, Bound: "a generic chain of up to 2 segments (names event, commits, foo; [0]; .*) before or after a documented untrusted path in every spelling, in 4 two-operand shapes", Require: []string{"compared"}},
 			{Entry: "HarnessC11Routing", Bound: "the untrusted expression at every scalar position of the full skeleton and in actions/github-script inputs", Require: []string{"script-position", "other-position", "github-script"}},
 			{Entry: "HarnessC11StarLiteral", Bound: "every documented path with array steps spelled ['*']: an ordinary property access, nothing reported", Require: []string{"compared"}},
@@ -423,9 +519,14 @@ func init() {
 		}
 		p.Thorough = []HRun{
 			{Entry: "HarnessC11Split", Bound: "every documented path cut at every position, 5 shapes", Require: []string{"compared"}},
-			{Entry: "HarnessC11Chains", Args: []int64{3}, Bound: "github + up to 3 segments x symbolic case x 15 embeddings", Require: []string{"untrusted", "trusted-or-sanitised"}},
+			{Entry: "HarnessC11Chains", Args: []int64{3}, Bound: "github + up to 3 segments x symbolic case x 24 embeddings", Require: []string{"untrusted", "trusted-or-sanitised"}},
 			{Entry: "HarnessC11Two", Args: []int64{3}, Bound: "generic chain of up to 3 segments with a documented path", Require: []string{"compared"}},
 			{Entry: "HarnessC11Routing", Bound: "every scalar position", Require: []string{"script-position", "other-position", "github-script"}},
+		}
+		{
+			r := HRun{Entry: "HarnessC11Tail", Bound: "every documented untrusted path in every spelling with one extra [0] inserted after any segment (after a .* filter the value is still the untrusted one)", Require: []string{"compared", "filtered-then-indexed"}}
+			p.Quick = append(p.Quick, r)
+			p.Thorough = append(p.Thorough, r)
 		}
 		props["C11"] = p
 	}
@@ -461,6 +562,16 @@ func init() {
 		p.Quick = append(p.Quick, HRun{Entry: "HarnessC07If", Bound: "5 malformed `if:` conditions written without ${{ }}, plain or quoted, at a 64-bit symbolic position", Require: []string{"checked"}})
 		p.Thorough = append(p.Thorough, HRun{Entry: "HarnessC07If", Bound: "bare if conditions at symbolic positions", Require: []string{"checked"}})
 		p.Quick = append(p.Quick, HRun{Entry: "HarnessC17Glob", Args: []int64{3, 1}, Bound: "ref filter patterns of 3 bytes: the character a message names is the one at its column (negated patterns included)"}, HRun{Entry: "HarnessC17Glob", Args: []int64{3, 0}, Bound: "path filter patterns of 3 bytes: named character at the column"})
+		{
+			r := HRun{Entry: "HarnessC07FrozenAST", Bound: "every scalar of the skeleton in 3 quoting styles, with or without a placeholder holding an undefined variable: no rule writes to the parsed syntax tree (positions are shared by all rules)", Require: []string{"linted"}}
+			p.Quick = append(p.Quick, r)
+			p.Thorough = append(p.Thorough, r)
+		}
+		{
+			r := HRun{Entry: "HarnessC07Fields", Bound: "6 fields that take one placeholder as their whole value (timeout-minutes, continue-on-error, max-parallel, fail-fast, env, matrix), quoted, 0-2 blanks before the placeholder, symbolic 64-bit position", Require: []string{"checked"}}
+			p.Quick = append(p.Quick, r)
+			p.Thorough = append(p.Thorough, r)
+		}
 		props["C07"] = p
 	}
 
@@ -480,6 +591,11 @@ func init() {
 		p.Thorough = append(append([]HRun{}, p.Quick...),
 			HRun{Entry: "HarnessC05Steps", Args: []int64{4}, Bound: "4 steps", Require: []string{"reported", "accepted"}},
 		)
+		{
+			r := HRun{Entry: "HarnessC05MatrixJobs", Bound: "two jobs in both written orders; job A (ordinary or reusable-workflow call) with a matrix row, job B without strategy or with its own row; symbolic letters", Require: []string{"reported", "accepted"}}
+			p.Quick = append(p.Quick, r)
+			p.Thorough = append(p.Thorough, r)
+		}
 		props["C05"] = p
 	}
 
@@ -501,6 +617,14 @@ func init() {
 		p.Thorough = append(append([]HRun{}, p.Quick...),
 			HRun{Entry: "HarnessC06Rules", Args: []int64{2, 1}, Bound: "types of depth <= 2 (3305) x every single loosening x 16 deep expression templates", Require: []string{"compared", "accepted-before"}},
 		)
+		for _, e := range []struct{ n, b string }{
+			{"HarnessC06MatrixRow", "a matrix row of 1-2 plain values (string, number, mapping, sequence) and one value of unknown type at every position x 7 uses of matrix.<row>: nothing reported"},
+			{"HarnessC06InputDefault", "default of a boolean / number / string workflow_call input given by 4 placeholders of unknown type: accepted"},
+		} {
+			r := HRun{Entry: e.n, Bound: e.b, Require: []string{"checked"}}
+			p.Quick = append(p.Quick, r)
+			p.Thorough = append(p.Thorough, r)
+		}
 		props["C06"] = p
 	}
 
@@ -513,14 +637,21 @@ func init() {
 			"the 154 outdated specs (they are rejected wholesale, not interface-checked)",
 		}}
 		p.Quick = []HRun{
-			{Entry: "HarnessC14Action", Bound: "checkAction on every interface of <= 3 inputs (symbolic letters, symbolic required flags) x every call site of <= 3 supplied keys", Require: []string{"checked"}},
+			{Entry: "HarnessC14Action", Args: []int64{3}, Bound: "checkAction on every interface of <= 3 inputs (symbolic letters, symbolic required flags) x every call site of <= 3 supplied keys", Require: []string{"checked"}},
 			{Entry: "HarnessC14Popular", Args: []int64{0, 1000}, Bound: "all 120 bundled action specs x a fully symbolic with: key of every length up to the longest declared name + 1 (all byte values)", Require: []string{"reported", "accepted", "skip-inputs"}},
 			{Entry: "HarnessC14Outputs", Args: []int64{0, 1000}, Bound: "steps.<id>.outputs.<X> for all bundled specs + github-script + an unknown action, X symbolic of every length up to the longest declared output + 1", Require: []string{"reported", "accepted", "dynamic"}},
 			{Entry: "HarnessC14Routes", Bound: "a reusable workflow's workflow_call declaration (input name in 3 spellings x required absent/true/false x default absent/''/text/number/bool/null/~ x type absent/string/number/boolean/other; a secret; an output): the interface decoded from the file equals the interface written from the syntax tree", Require: []string{"compared"}},
 			{Entry: "HarnessC14ActionFile", Bound: "a local action.yml (declared input in 3 spellings x required x default incl. null; one output) decoded by the repository's UnmarshalYAML methods, against call sites supplying 5 key variants and reading 3 output names", Require: []string{"checked"}},
 			{Entry: "HarnessC14WorkflowCall", Bound: "local reusable workflow with one input (4 types, symbolic required) and one secret; with:/secrets: keys symbolic; 5 literal/expression values; secrets: inherit", Require: []string{"checked", "typed", "inherit"}},
 		}
-		p.Thorough = p.Quick
+		p.Thorough = append(append([]HRun{}, p.Quick...),
+			HRun{Entry: "HarnessC14Action", Args: []int64{4}, Bound: "interfaces of <= 4 inputs x call sites of <= 4 supplied keys", Require: []string{"checked"}},
+		)
+		{
+			r := HRun{Entry: "HarnessC14CallOutputs", Bound: "needs.<job>.outputs.<X> for a local reusable workflow declaring 0, 1 or 2 outputs (symbolic letters)", Require: []string{"reported", "accepted"}}
+			p.Quick = append(p.Quick, r)
+			p.Thorough = append(p.Thorough, r)
+		}
 		props["C14"] = p
 	}
 
@@ -557,6 +688,19 @@ func init() {
 			HRun{Entry: "HarnessC20Schedule", Args: []int64{4, 4, 3, 0, 0}, Bound: "4 files x 4 steps, 3 CPUs", Require: []string{"linted", "complete-schedule-exists"}},
 			HRun{Entry: "HarnessC20Schedule", Args: []int64{2, 2, 1, 1, 0}, Bound: "2 files x 2 steps, 1 CPU in the step-indexed encoding", Require: []string{"linted", "complete-schedule-exists"}},
 		)
+		for _, f := range []int64{0, 1} {
+			p.Quick = append(p.Quick, HRun{Entry: "HarnessC20Schedule", Args: []int64{0, 2, 2, 0, f}, Bound: "the Linter.Lint route (one file given as bytes) with 2 run steps, 2 CPUs; fail=1: shellcheck prints non-JSON while pyflakes is still running: every schedule", Require: []string{"linted", "complete-schedule-exists"}})
+			p.Thorough = append(p.Thorough, HRun{Entry: "HarnessC20Schedule", Args: []int64{0, 4, 2, 0, f}, Bound: "Linter.Lint route, 4 run steps, 2 CPUs", Require: []string{"linted", "complete-schedule-exists"}})
+		}
+		{
+			r := HRun{Entry: "HarnessC20RunKey", Bound: "step keys in 3 orders (run first, shell first, name-shell-run) x bash / python: the tool's issue becomes a diagnostic at the run: key", Require: []string{"callback"}}
+			p.Quick = append(p.Quick, r)
+			p.Thorough = append(p.Thorough, r)
+		}
+		for L := int64(1); L <= 3; L++ {
+			p.Quick = append(p.Quick, HRun{Entry: "HarnessC20SanitizeIn", Args: []int64{L}, Bound: "a placeholder whose inside is L arbitrary bytes (line breaks included) between text and a second placeholder", Require: []string{"checked"}})
+		}
+		p.Thorough = append(p.Thorough, HRun{Entry: "HarnessC20SanitizeIn", Args: []int64{5}, Bound: "placeholder inside of 5 arbitrary bytes", Require: []string{"checked"}})
 		props["C20"] = p
 	}
 }
